@@ -91,6 +91,21 @@ func foldHistory(steps []stepT, control func(i int) engine.Result) engine.Result
 	return engine.OK(strings.Join(rules, ">"), strings.Join(outs, ","))
 }
 
+// historyDepth: 2 calls per history (thorough: 3). A replay file of a three-call history is
+// re-run with all its calls whatever the tier of the replaying run.
+func historyDepth(c *engine.Check) int {
+	if c.ReplayFile != "" {
+		var desc map[string]string
+		if _, err := c.LoadReplay(&desc); err == nil {
+			if _, ok := desc["s3"]; ok {
+				return 3
+			}
+			return 2
+		}
+	}
+	return engine.Pick(c, 2, 3)
+}
+
 func historyDims(depth int, letters []string, lead ...engine.Dim) engine.Space {
 	sp := append(engine.Space{}, lead...)
 	for i := 1; i <= depth; i++ {
@@ -170,7 +185,7 @@ func runHistoryVerify(t *testing.T, c *engine.Check) {
 		names[i] = l.name
 		index[l.name] = i
 	}
-	depth := engine.Pick(c, 2, 3)
+	depth := historyDepth(c)
 	sp := historyDims(depth, names, engine.D("variant", hvVariants...))
 	cfg := providerCfg // issuer I, max age 1h, offset 1s: the provider's own verifier settings
 	now := vT0.Add(250 * time.Millisecond)
@@ -303,7 +318,7 @@ func runHistoryEndpoint(t *testing.T, c *engine.Check) {
 			letters[n] = letterT{o, a, serialize(a.signer, a.kid, a.payload(eT0, I))}
 		}
 	}
-	depth := engine.Pick(c, 2, 3)
+	depth := historyDepth(c)
 	sp := historyDims(depth, names, engine.D("router", "provider", "legacy"))
 	now := eT0.Add(250 * time.Millisecond)
 	c.RunE1(engine.E1{
@@ -357,7 +372,7 @@ func runHistoryReqObj(t *testing.T, c *engine.Check) {
 			}
 		}
 	}
-	depth := engine.Pick(c, 2, 3)
+	depth := historyDepth(c)
 	sp := historyDims(depth, names, engine.D("router", "provider", "legacy"))
 	c.RunE1(engine.E1{
 		Part:  "history-reqobj",
